@@ -86,6 +86,10 @@ package limiter
 //@   modifies *
 //@   ensures !held
 //@   callsite Delete?: [C15:forgetting-an-entry-loses-no-debt] arg1 == key && nTok >= 1 && tokensAt(gL, gAt) >= float64(burstOf(gL))
+// (monitor argument: what the collector decides about an entry and what it does to the table are one critical
+// section of that entry, so a request that already holds the entry either runs before - and is seen - or after -
+// and sees that the entry is gone)
+//@   callsite Delete?: [C15:entry-dropped-inside-its-own-critical-section] held
 //@   callsite TokensAt?: [C15:bucket-read-under-the-entry-lock] held && arg0 == value.l
 
 //@ func (cl *ClientLimiter) Close() (err error)
